@@ -398,6 +398,10 @@ func (p *pair) judge(t time.Time, ans cronref.Answer, got time.Time, hung bool) 
 		key = "zone=" + p.zi.name + ";transition=" + time.Unix(tr, 0).UTC().Format(time.RFC3339) + suffix
 	} else if tr, found := p.zi.z.Nearest(t.Unix(), near); found {
 		key = "zone=" + p.zi.name + ";transition=" + time.Unix(tr, 0).UTC().Format(time.RFC3339) + suffix
+	} else if subMinute(loc, e) || subMinute(loc, t.Unix()) {
+		// a local-mean-time era: the zone's UTC offset is not a whole number of
+		// minutes there (kit truncates to minutes and seconds in absolute time)
+		key = "zone=" + p.zi.name + ";sub-minute-offset" + suffix
 	} else {
 		key = "zone=" + p.zi.name + ";no-transition;spec=" + strings.ReplaceAll(p.spec, " ", "_") + suffix
 	}
@@ -423,6 +427,14 @@ func (p *pair) judge(t time.Time, ans cronref.Answer, got time.Time, hung bool) 
 		what = "is not a whole second"
 	}
 	return &mismatch{Key: key, Msg: fmt.Sprintf("%s = %s, which %s; earliest match: %s", head, f(got.Unix(), gotZero), what, f(ans.Unix, !ans.Found)), C: c, N: 1}
+}
+
+func subMinute(loc *time.Location, u int64) bool {
+	if u == 0 {
+		return false
+	}
+	_, off := time.Unix(u, 0).In(loc).Zone()
+	return off%60 != 0
 }
 
 // wallDiff: the coarsest wall-clock unit in which two readings differ.
@@ -649,7 +661,7 @@ func workerMain() {
 				mu.Lock()
 				curG, curI = g, i
 				mu.Unlock()
-				m, nontriv := p.eval(t, q.Kind == "single")
+				m, nontriv := p.eval(t, q.Kind == "single" && zi.z.AllOffsets15m)
 				mu.Lock()
 				resp.N++
 				if nontriv {
@@ -659,7 +671,7 @@ func workerMain() {
 					merge(mis, m)
 				}
 				mu.Unlock()
-				if evals%2003 == 0 && q.Kind != "single" {
+				if evals%2003 == 0 && q.Kind != "single" && zi.z.AllOffsets15m { // (Plain mode would crawl second by second through an LMT era)
 					// machinery self-check: the continuing Fast scan equals the memory-less Plain one
 					plain := cronref.Next(zi.z, &p.ref, inFlight.t)
 					if plain != inFlight.ans {
@@ -817,6 +829,109 @@ func horizonStarts(zi *zoneInfo, c int, spec string) [][2]int64 {
 		}
 	}
 	sort.Slice(ts, func(i, j int) bool { return ts[i].Before(ts[j]) })
+	var out [][2]int64
+	for i, t := range ts {
+		if i > 0 && t.Equal(ts[i-1]) {
+			continue
+		}
+		out = append(out, [2]int64{t.Unix(), int64(t.Nanosecond())})
+	}
+	return out
+}
+
+// ---- skipped / repeated local days ---------------------------------------------------
+
+// Zones that have moved across the date line (or were on the other side of it
+// under an earlier administration); missing names are skipped. The jumps
+// themselves are found by scanning.
+var jumpZoneCandidates = []string{"Pacific/Kiritimati", "Pacific/Enderbury", "Pacific/Kanton", "Pacific/Apia", "Pacific/Fakaofo", "Pacific/Kwajalein", "Pacific/Majuro", "Pacific/Kosrae", "Asia/Manila", "Pacific/Guam", "Pacific/Saipan", "Pacific/Pago_Pago", "Pacific/Midway", "Pacific/Rarotonga", "Pacific/Tongatapu", "Pacific/Niue", "Pacific/Nauru", "Pacific/Tarawa", "Pacific/Chuuk", "Pacific/Pohnpei", "America/Juneau", "America/Sitka", "America/Anchorage", "America/Metlakatla", "America/Yakutat", "America/Nome", "America/Adak", "Asia/Anadyr", "Asia/Kamchatka"}
+
+type jump struct {
+	zone          string
+	at            int64
+	before, after int
+}
+
+func findJumps() []jump {
+	from, to := time.Date(1840, 1, 1, 0, 0, 0, 0, time.UTC).Unix(), eraTo
+	var out []jump
+	for _, name := range jumpZoneCandidates {
+		loc, err := time.LoadLocation(name)
+		if err != nil {
+			continue
+		}
+		z, err := cronref.ScanZone(name, loc, from, to, false) // the era around each jump is cross-checked separately
+		if err != nil {
+			panic(err)
+		}
+		for _, tr := range z.Transitions {
+			b, a := offsetAt(loc, tr-1), offsetAt(loc, tr)
+			if d := a - b; d >= 23*3600 || d <= -23*3600 {
+				out = append(out, jump{name, tr, b, a})
+			}
+		}
+	}
+	return out
+}
+
+func jumpEra(at int64) (from, to int64) { return at - 400*86400, at + 7*366*86400 }
+
+func jumpSpecs(zi *zoneInfo, j jump) []string {
+	loc := zi.z.Loc
+	lb, la := time.Unix(j.at-1, 0).In(loc), time.Unix(j.at, 0).In(loc)
+	except := func(m time.Month) string {
+		var ms []string
+		for x := 1; x <= 12; x++ {
+			if time.Month(x) != m {
+				ms = append(ms, fmt.Sprint(x))
+			}
+		}
+		return strings.Join(ms, ",")
+	}
+	uniq := func(xs ...string) []string {
+		seen := map[string]bool{}
+		var out []string
+		for _, x := range xs {
+			if !seen[x] {
+				seen[x] = true
+				out = append(out, x)
+			}
+		}
+		return out
+	}
+	months := uniq("*", fmt.Sprint(int(lb.Month())), fmt.Sprint(int(la.Month())), except(la.Month()), except(lb.Month()))
+	doms := uniq("*", "1", "1,28-31", "28-31", fmt.Sprint(la.Day()), "*/2")
+	dows := uniq("*", "0", "1-5", fmt.Sprint(int(la.Weekday())))
+	var out []string
+	for _, h := range []string{"0", "*", "12"} {
+		for _, d := range doms {
+			for _, m := range months {
+				for _, w := range dows {
+					out = append(out, "0 0 "+h+" "+d+" "+m+" "+w)
+				}
+			}
+		}
+	}
+	return out
+}
+
+func jumpStarts(j jump) [][2]int64 {
+	T := time.Unix(j.at, 0).UTC()
+	var ts []time.Time
+	k := 0
+	for d := -40 * 24 * time.Hour; d <= 48*time.Hour; d += 6 * time.Hour {
+		t := T.Add(d)
+		if k%2 == 1 {
+			t = t.Add(500 * time.Millisecond)
+		}
+		ts = append(ts, t)
+		k++
+	}
+	for d := -6 * time.Hour; d <= 6*time.Hour; d += 30 * time.Minute {
+		ts = append(ts, T.Add(d).Add(time.Minute))
+	}
+	ts = append(ts, T.Add(-time.Second), T)
+	sort.Slice(ts, func(a, b int) bool { return ts[a].Before(ts[b]) })
 	var out [][2]int64
 	for i, t := range ts {
 		if i > 0 && t.Equal(ts[i-1]) {
@@ -1015,7 +1130,7 @@ func run(r *enumx.Run, replay *enumx.ReplayCase) {
 	if !subset(wideQuick, wideThorough) || !subset(windowQuick, windowThorough) || !subset(windowThorough, wideThorough) {
 		panic("menu inclusion broken: quick must explore a subset of thorough")
 	}
-	r.Rule("next: each case is one (schedule, zone, start instant) triple: kit's Next(t) against the reference scan of absolute time. Schedules: full product of a term menu per field. Start instants per zone: a regular grid 2005-2030 (step 97d5h43m17.25s) for the wide menu, and for the window menu every 7 minutes from -50h to +4h around every UTC-offset change of the zone in 2005-2024 (alternating whole-second and half-second starts, plus the instant itself and one second before). Also @every durations x starts (closed form) and rarely/never matching schedules for the five-year horizon, including a boundary family (29 February schedules - the only ones of this dialect with gaps of more than a year - from starts in the years around 1900, 2000, 2100, 2200, 2400 in four zones). Horizon oracle: with M the reference's earliest match, kit must return M if M <= t+5 calendar years (t.AddDate(5,0,0) on the zone's wall clock, inclusive: 'within five years'); must return the zero time if no match exists up to the end of calendar year year(t+1s)+5 (the documented search bound of the implementation: 'if no time is found within five years, return zero', searched to the end of that calendar year); and may return either M or the zero time when M is more than five years after t but still inside calendar year year(t+1s)+5 - the statement (zero: none within five years) and the unchanged implementation (returns M) differ there, and nothing is claimed. A case is non-trivial when the answer is not simply the next second. A call of Next that does not return within 5 s (confirmed once per key with 15 s) is a violation; the remaining starts of that window before the transition (then: of that window) are not tried for that schedule and are counted as skipped.")
+	r.Rule("next: each case is one (schedule, zone, start instant) triple: kit's Next(t) against the reference scan of absolute time. Schedules: full product of a term menu per field. Start instants per zone: a regular grid 2005-2030 (step 97d5h43m17.25s) for the wide menu, and for the window menu every 7 minutes from -50h to +4h around every UTC-offset change of the zone in 2005-2024 (alternating whole-second and half-second starts, plus the instant itself and one second before). Also @every durations x starts (closed form) and rarely/never matching schedules for the five-year horizon, a family around every UTC-offset change of at least 23 h (a skipped or repeated local day) of the date-line zones 1840-2037, and a boundary family (29 February schedules - the only ones of this dialect with gaps of more than a year - from starts in the years around 1900, 2000, 2100, 2200, 2400 in four zones). Horizon oracle: with M the reference's earliest match, kit must return M if M <= t+5 calendar years (t.AddDate(5,0,0) on the zone's wall clock, inclusive: 'within five years'); must return the zero time if no match exists up to the end of calendar year year(t+1s)+5 (the documented search bound of the implementation: 'if no time is found within five years, return zero', searched to the end of that calendar year); and may return either M or the zero time when M is more than five years after t but still inside calendar year year(t+1s)+5 - the statement (zero: none within five years) and the unchanged implementation (returns M) differ there, and nothing is claimed. A case is non-trivial when the answer is not simply the next second. A call of Next that does not return within 5 s (confirmed once per key with 15 s) is a violation; the remaining starts of that window before the transition (then: of that window) are not tried for that schedule and are counted as skipped.")
 
 	// zones
 	zis := make([]*zoneInfo, len(zoneNames))
@@ -1147,6 +1262,35 @@ func run(r *enumx.Run, replay *enumx.ReplayCase) {
 		}
 		phase(fmt.Sprintf("horizon-boundaries: %d schedules %v x zones %v x start years C-6..C+1 for C in %v (first and middle of every month, the seconds around 28 Feb/1 Mar, 29 Feb and the year end, and around every match M: M-1s, M, M+1s and M.AddDate(-5,0,0) -1s/+0/+1s); %d (schedule, zone, start) cases", len(horizonSpecs), horizonSpecs, horizonZones, horizonCenturies, nStarts), reqs)
 	}
+	// C3. skipped / repeated local days: every UTC-offset change of at least 23 h
+	// of the date-line zones, 1840-2037
+	{
+		jumps := findJumps()
+		jz := make([]*zoneInfo, len(jumps))
+		jerr := make([]error, len(jumps))
+		r.Parallel(len(jumps), func(i int) {
+			from, to := jumpEra(jumps[i].at)
+			jz[i], jerr[i] = loadZoneEra(jumps[i].zone, from, to, true)
+		})
+		var reqs []unitReq
+		var descs []string
+		nCases := 0
+		for i, j := range jumps {
+			if jerr[i] != nil {
+				panic(jerr[i])
+			}
+			from, to := jumpEra(j.at)
+			specs := jumpSpecs(jz[i], j)
+			starts := jumpStarts(j)
+			descs = append(descs, fmt.Sprintf("%s %s (%+dh)", j.zone, time.Unix(j.at, 0).UTC().Format(time.RFC3339), (j.after-j.before)/3600))
+			for _, sp := range specs {
+				reqs = append(reqs, unitReq{ID: len(reqs), Zone: j.zone, Spec: sp, Kind: "list", EraFrom: from, EraTo: to, Starts: starts})
+				nCases += len(starts)
+			}
+		}
+		r.Set("day_jumps", descs)
+		phase(fmt.Sprintf("day-jumps: %d offset changes of >= 23 h found by scanning %d date-line zones over 1840-2037, each x up to 360 schedules (month: *, the month before / after the jump, every month but that one; dom: *, 1, 1+28-31, 28-31, the day after the jump, odd days; dow: *, 0, 1-5, the weekday after the jump; hour: 0, *, 12) x starts from 40 days before to 2 days after (every 6 h, every 30 min within 6 h, the instant and one second before); %d cases", len(jumps), len(jumpZoneCandidates), nCases), reqs)
+	}
 	// D. @every
 	{
 		var reqs []unitReq
@@ -1207,6 +1351,9 @@ func classify(key string, zis []*zoneInfo) string {
 	if strings.HasPrefix(key, "every;") {
 		return "@every"
 	}
+	if strings.Contains(key, ";sub-minute-offset") {
+		return "(vi) zone offset not a whole minute (local mean time era)"
+	}
 	if !strings.Contains(key, ";transition=") {
 		return "no-transition"
 	}
@@ -1216,18 +1363,26 @@ func classify(key string, zis []*zoneInfo) string {
 	if err != nil {
 		return "?"
 	}
+	var locs []*time.Location
 	for _, zi := range zis {
-		if zi.name != name {
-			continue
+		if zi.name == name {
+			locs = append(locs, zi.z.Loc)
 		}
+	}
+	if len(locs) == 0 {
+		if l, err := time.LoadLocation(name); err == nil {
+			locs = append(locs, l)
+		}
+	}
+	for _, loc := range locs {
 		u := tr.Unix()
-		before, after := offsetAt(zi.z.Loc, u-1), offsetAt(zi.z.Loc, u)
+		before, after := offsetAt(loc, u-1), offsetAt(loc, u)
 		shift := after - before
 		lb := time.Unix(u, 0).In(time.FixedZone("", before)) // wall clock reading at which the change happens
 		whole := shift%3600 == 0 && lb.Minute() == 0 && lb.Second() == 0
 		desc := fmt.Sprintf("%s local %+dm", lb.Format("Mon 15:04"), shift/60)
 		switch {
-		case shift >= 86400 || shift <= -86400:
+		case shift >= 23*3600 || shift <= -23*3600:
 			return "(iv) whole local day skipped/repeated: " + desc
 		case !whole:
 			return "(i) shift or local instant not a whole hour: " + desc
